@@ -215,7 +215,11 @@ func runC07(p *engine.Prog, r *engine.Report) {
 					if ret, ok := b.Instrs[len(b.Instrs)-1].(*ssa.Return); ok {
 						cb := &boundCtx{c: c, fi: cfi, seen: map[string]bool{}, assume: map[string]bool{}}
 						if !cb.lower(ret.Results[0], "len("+cfi.T(q).S+")") {
-							okAll = false
+							// or the return is only reached when the value is not below the length ("if v < n { return n }; return v")
+							want := engine.Not(engine.LtAtom(cfi.T(ret.Results[0]), engine.Sym("len("+cfi.T(q).S+")")))
+							if ok, _ := cfi.Implies(b, want); !ok {
+								okAll = false
+							}
 						}
 					}
 				}
